@@ -100,6 +100,9 @@ def check_text(m, text: str):
             m.add('evaluations')
             if r != ('ok', t):
                 m.violation(f'a/get_line/{name}', impl=name, text=text, line=ln, got=r, want=t)
+        # the answers must not depend on where the cursor currently stands
+        if hasattr(obj, 'goto') and n:
+            obj.goto(n)
         for p in range(n + 1):
             m.add('evaluations', 3)
             li = call(obj.lineinfo, p)
@@ -129,8 +132,8 @@ def check_text(m, text: str):
                         ok = i.text == lines[i.line][1] and i.start == lines[i.line][0]
                     if not ok:
                         m.violation(f'a/lineinfo-{kind}/{name}/invalid', impl=name, text=text, pos=p, got=li)
-                # lineat/poscol at the end sentinel: the property fixes no value
-                # there (the code uses a one-past sentinel); they must answer.
+                # offset len(text) is not an offset *in* the text: lineat/poscol must answer, no value is
+                # demanded (part (b) demands the exact start line of rules that start there).
                 if la[0] != 'ok' or not isinstance(la[1], int) or la[1] < 0:
                     m.violation(f'a/lineat-{kind}/{name}', impl=name, text=text, pos=p, got=la, want='an int >= 0')
                 if pc[0] != 'ok' or not isinstance(pc[1], int) or pc[1] < 0:
